@@ -202,13 +202,10 @@ static unsigned scan(const T &t, unsigned *oi) {
     return no;
 }
 
-// A table without storage (Capacity() == 0: default-constructed, Reset, moved-from).  Only calls that do not walk the
-// (null) storage: `while (item < end)` on two null pointers is well-defined in C++ but a fatal "pointer relation" alarm
-// for CBMC's C semantics.
+// an empty table; cap_zero: one without storage (default-constructed, Reset, moved-from)
 static void check_empty(const T &t, bool cap_zero) {
-    vf_assert(t.Size() == 0 && t.IsEmpty(), 800);
+    vf_assert(t.Size() == 0 && t.IsEmpty() && t.ActualSize() == 0, 800);
     if (cap_zero) vf_assert(t.Capacity() == 0, 801);
-    else vf_assert(t.ActualSize() == 0, 806);
     MKey p = sym_key();
     Key2 pk(p.d, p.n);
     vf_assert(!t.Has(pk), 802);
@@ -221,7 +218,7 @@ static void check_empty(const T &t, bool cap_zero) {
 // sorted: 0 = storage order must be the model's (first-insertion) order; +1 / -1 = ascending / descending key order
 static void observe(const T &t, const Model &m, int sorted) {
     const unsigned sz = t.Size();
-    if (t.Capacity() == 0) { vf_assert(m.n == 0 && sz == 0, 14); check_empty(t, true); return; }
+    if (t.Capacity() == 0) vf_assert(m.n == 0 && sz == 0, 14);
     const unsigned as = t.ActualSize();
     vf_assert(as == m.n, 10);
     vf_assert(sz >= as && sz <= t.Capacity(), 11);
@@ -307,10 +304,9 @@ static void observe(const T &t, const Model &m, int sorted) {
     }
 }
 
-// Tables live in placement buffers and are destroyed explicitly, and only when they own storage: ~HashTable() on a table
-// without storage runs Dispose(nullptr, nullptr) (the null pointer relation again); it has nothing to release.
+// tables live in placement buffers and are destroyed explicitly before the reachability witness
 #define TABLE(name, buf, ...) alignas(8) unsigned char buf[sizeof(T)]; T &name = *new (&buf[0]) T(__VA_ARGS__)
-static void fin(T &t) { if (t.Capacity() != 0) t.~T(); }
+static void fin(T &t) { t.~T(); }
 
 extern "C" void h_op() {
     Model m; m.n = 0;
@@ -442,18 +438,17 @@ extern "C" void h_op() {
         }
         t.Resize(SizeT(ARG));
         m = r;
-        vf_assert(t.Capacity() >= ARG, 151);
-        if (ARG == 0) vf_assert(t.Capacity() == 0 && t.Size() == 0, 152);
-        else vf_assert(t.Size() == t.ActualSize(), 153);
+        vf_assert(t.Capacity() >= ARG && t.Size() == t.ActualSize(), 151);
+        if (ARG == 0) vf_assert(t.Capacity() == 0, 152);
     }
 #elif OP == OP_EXPECT
     t.Expect(SizeT(ARG));
     vf_assert(t.Capacity() >= t.Size() + ARG, 160);
 #elif OP == OP_COMPRESS
     t.Compress();
-    if (m.n == 0) vf_assert(t.Capacity() == 0 && t.Size() == 0, 171);
+    vf_assert(t.Size() == t.ActualSize(), 170);
+    if (m.n == 0) vf_assert(t.Capacity() == 0, 171);
     else vf_assert(t.Capacity() != 0, 172);
-    if (t.Capacity() != 0) vf_assert(t.Size() == t.ActualSize(), 170);
 #elif OP == OP_CLEAR
     {
         const unsigned c0 = t.Capacity();
